@@ -631,7 +631,8 @@ struct QHarness {
     } else if constexpr (!std::is_same_v<E, uint32_t>) {
       for (int id = 1; id < L.n_ids; ++id) {
         if (L.live[id] != 0)
-          vrt::fail("leaked_element", "element %d is still alive after the queue was destroyed (%d elements were inside)", id, inside);
+          vrt::fail(A::spec == S_NIKB && (uint32_t)nthreads > par.cap ? "leaked_element_threads_over_capacity" : "leaked_element",
+                    "element %d is still alive after the queue was destroyed (%d elements were inside)", id, inside);
         if (L.destroyed[id] != 1) vrt::fail("leaked_element", "element %d was destroyed %d times", id, L.destroyed[id]);
       }
     }
